@@ -17,7 +17,10 @@ Package md extracts code sections of markdown files
 */
 package md
 
-import "os"
+import (
+	"os"
+	"unicode/utf8"
+)
 
 /*
 GetSource returns code sections enclosed in triple backticks.
@@ -26,6 +29,11 @@ func GetSource(mdfile string) (string, error) {
 	inbuf, err := os.ReadFile(mdfile)
 	if err != nil {
 		return "", err
+	}
+	if !utf8.Valid(inbuf) {
+		// the conversion to runes below would replace every byte that is not valid UTF-8 (inside a string
+		// literal of the grammar, say) by U+FFFD: the .md file would no longer mean what its code sections say
+		return getSourceLossless(inbuf), nil
 	}
 	input := []rune(string(inbuf))
 	loadMd(input)
@@ -54,4 +62,29 @@ func loadMd(input []rune) {
 			i += 1
 		}
 	}
+}
+
+// getSourceLossless is GetSource for input that is not valid UTF-8: a byte b that is not part of a valid
+// sequence travels through loadMd as the out-of-range rune invalidByte+b and is written back unchanged.
+func getSourceLossless(inbuf []byte) string {
+	const invalidByte = utf8.MaxRune + 1
+	input := make([]rune, 0, len(inbuf))
+	for i := 0; i < len(inbuf); {
+		r, size := utf8.DecodeRune(inbuf[i:])
+		if r == utf8.RuneError && size == 1 {
+			r = invalidByte + rune(inbuf[i])
+		}
+		input = append(input, r)
+		i += size
+	}
+	loadMd(input)
+	out := make([]byte, 0, len(inbuf))
+	for _, r := range input {
+		if r >= invalidByte {
+			out = append(out, byte(r-invalidByte))
+		} else {
+			out = utf8.AppendRune(out, r)
+		}
+	}
+	return string(out)
 }
